@@ -30,43 +30,59 @@ TECHNIQUE = (
 
 META = {
     "explanation": (
-        "R1: every way out of render_link other than render_link_anchor is unreachable for an href that starts with '#' "
-        "(guarded by the negated '#' test, by a scheme test whose regex provably cannot match a leading '#', or by a tabled "
-        "pre-emption), the '#' dispatch hands over the '#'-prefixed href, and both render_link_project implementations strip "
-        "exactly len('project:') characters and dispatch '#...' to render_link_anchor before any other outcome. "
-        "R2: the marker/URI attributes written by render_link_anchor are the ones ResolveAnchorIds reads, the reader strips exactly "
-        "the leading '#', deletes the URI attribute on every resolved path, walks all reference nodes of the whole document, the "
-        "writer stamps the link's line, and the transform is registered by both parsers. "
-        "R3: every path through the resolver's loop body ends in exactly one outcome (refid from the explicit registry, refid from "
-        "the slug registry, replacement by a pending_xref that carries the children, or docutils miss = exactly one XREF_MISSING "
-        "warning at refnode.line + fallback refid); the explicit lookup dominates the slug lookup and both dominate the Sphinx/miss "
-        "outcomes; refid is read from the registry position that the registry's writer fills with the node id; after a hit an empty "
-        "link receives a text child on every path. "
-        "R4: the explicit-name registry is keyed by docutils-normalised names (every writer passes the name through "
-        "nodes.fully_normalize_name) so the reader has to probe it with a normalised key. "
-        "R5: the explicit registry holds exactly the explicit names: the reader filters on the nametypes flag, the MyST target / "
-        "attribute id / directive name writers register with note_explicit_target, the heading-title name with note_implicit_target. "
-        "R6: for each heading node render_heading creates (section whose title is a nodes.title child; rubric that is its own title) the "
-        "resolver's title extraction has a case on the same subject (the node itself / a child of that class). "
-        "R7: the key under which a heading enters the slug registry was tested absent from the registry after its last assignment on "
-        "every path (compute_unique_slug), so no heading overwrites another heading's anchor. "
-        "R8: between the per-parse reset and its export as document.myst_slugs the slug registry only grows (no re-binding to a snapshot, "
-        "no removal of entries). Also: the link text is percent-decoded (normalizeLinkText) by the writer or by every caller of "
-        "render_link_anchor (R2), and the slug registry - keyed by the slug function's output as is - is probed with the exact link text (R4)."
+        "Structural necessary conditions of local '#target' link resolution, decided on syntax trees, CFGs (dominance, guard facts, path "
+        "counting) and small agreement checks between writers and readers. A function that was split into private helpers "
+        "(ResolveAnchorIds.apply, clean_astext) is analysed with the helpers inlined (same class / same module, two levels; helpers with "
+        "early returns that only inspect the node and add children are summarised instead). "
+        "R1 dispatch: every way out of render_link other than render_link_anchor - direct self.render_link_* calls and "
+        "getattr(self, TABLE[scheme])(token) table dispatch - is unreachable for an href that starts with '#' (negated '#' test, a scheme "
+        "test whose regex provably cannot match a leading '#', or a tabled pre-emption: the three config flags, the class 'external' "
+        "tested as a *word* of the class list, autolinks); the '#' dispatch hands over the tested '#'-prefixed text (possibly decoded); "
+        "scheme 'project' reaches render_link_project, whose two implementations strip exactly len('project:') and dispatch '#...' "
+        "to render_link_anchor before any other outcome. "
+        "R2 writer/reader agreement: render_link_anchor stores the marker and URI attributes that ResolveAnchorIds reads, stamps the "
+        "line, attaches the node exactly once on every path; the link text is percent-decoded (normalizeLinkText) by the writer or by "
+        "every caller; the reader strips exactly the leading '#', deletes the URI attribute around every refid store, walks all "
+        "reference nodes of the whole document, leaves unmarked references alone; both parsers register the transform. "
+        "R3 loop-body paths: every path through the resolver's loop body reaches exactly one outcome (refid from the explicit registry, "
+        "refid from the slug registry, replacement by a pending_xref that carries target/explicitness/children, or docutils miss = "
+        "exactly one XREF_MISSING warning at refnode.line + fallback refid), no fall-through between outcomes, explicit lookup "
+        "dominates the slug lookup and both dominate the Sphinx/miss outcomes, refid comes from the tuple position the registry's "
+        "writer fills with the node id, no warning on a resolving path, and after every refid store an empty link receives a text "
+        "child on every path. "
+        "R4 key kinds: every writer of an explicit name keys it with nodes.fully_normalize_name, so the explicit registry is probed with "
+        "a normalised key; the slug registry (keyed by the slug function's output as is) is probed with the exact link text. "
+        "R5 explicit-only registry: the registry is filled only for names whose nametypes flag is true (a loop over a table without "
+        "the flag, a dropped or inverted test is a violation); the '(name)=', attribute-id and :name: writers register with "
+        "note_explicit_target unconditionally with respect to document.nameids/ids (which also hold implicit names); the heading "
+        "title name registers with note_implicit_target. Writers are append/extend/insert on node['names'] and list literals "
+        "re-bound or concatenated onto it. "
+        "R6 title extraction: for each heading node render_heading creates (section with a nodes.title child; rubric that is its own "
+        "title) the resolver's title extraction has a case on the same subject (node itself / child of that class). "
+        "R7 unique slug keys: the key under which a heading enters the slug registry was tested absent from it after its last "
+        "assignment on every path (a candidate computed in the return expression is untested). "
+        "R8 monotone slug registry: between the per-parse reset and the export as document.myst_slugs the registry is never re-bound "
+        "to another object or emptied and no entry is removed. "
+        "R9 title text: clean_astext has an image-alt step and a raw-node step, every return comes after each step (or is an early exit "
+        "whose condition examines that node class), and the steps run on a deep copy."
     ),
     "not_decided": (
         "which node a given name resolves to at run time (contents of document.nametypes/nameids/ids and myst_slugs for a concrete "
-        "document); what docutils' PropagateTargets does to a '(name)=' target; the Sphinx post-transform that resolves the "
-        "pending_xref (C12); the numeric value of refnode.line (C04)"
+        "document); what docutils' PropagateTargets does to a '(name)=' target and which nodes it skips; the skip conditions of the "
+        "registry loop other than the explicit flag (e.g. the indirect-target branch); the Sphinx post-transform that resolves the "
+        "pending_xref (C12); the numeric value of refnode.line (C04); slug values (C10)"
     ),
     "trusted_base": [
         "CPython ast and re._parser",
-        "docutils: note_explicit_target/note_implicit_target fill nametypes/nameids/ids; Element += / append adds a child",
-        "tabled pre-emptions of the '#' dispatch in render_link (config flags, 'external' class, autolinks carry a scheme)",
+        "docutils: note_explicit_target/note_implicit_target fill nametypes/nameids/ids; Element += / append adds a child and updates in place; "
+        "Element.update_*_atts / copy_attr_* only read their argument",
+        "tabled pre-emptions of the '#' dispatch in render_link (config flags, word 'external' in the class list, autolinks carry a scheme)",
+        "the helper inliner (parameter substitution for simple arguments, renaming of colliding locals, single trailing return)",
     ],
     "assumptions": [
         "markdown-it autolink/linkify tokens (info == 'auto') always carry an absolute URI, never a bare '#fragment'",
         "url_schemes keys are strings (validated by check_url_schemes), so a None scheme is never `in` it",
+        "heading_slug_func may return any string: the slug registry must be probed with the exact text and every candidate tested against it",
     ],
 }
 
@@ -426,6 +442,36 @@ def _arg_is_tested(fi: FunctionInfo, arg: ast.AST | None, tested: set[str]) -> b
     return False
 
 
+def _class_table(corpus: Corpus, fi: FunctionInfo, e: ast.AST) -> dict | None:
+    """Literal dict behind ``self.NAME`` / ``cls.NAME`` / ``Class.NAME`` (class attribute) or a module constant ``NAME``."""
+    name = None
+    if isinstance(e, ast.Attribute) and isinstance(e.value, ast.Name):
+        name = e.attr
+    elif isinstance(e, ast.Name):
+        name = e.id
+    if name is None:
+        return None
+    cands: list[ast.AST] = []
+    if fi.cls is not None and isinstance(e, ast.Attribute):
+        for ci in corpus.mro(fi.cls):
+            for st in ci.node.body:
+                if isinstance(st, ast.Assign) and any(isinstance(t, ast.Name) and t.id == name for t in st.targets):
+                    cands.append(st.value)
+                elif isinstance(st, ast.AnnAssign) and isinstance(st.target, ast.Name) and st.target.id == name and st.value is not None:
+                    cands.append(st.value)
+            if cands:
+                break
+    elif name in fi.module.const_nodes:
+        cands.append(fi.module.const_nodes[name])
+    if len(cands) != 1:
+        return None
+    try:
+        val = fi.module.eval_const(cands[0])
+    except Unsupported:
+        return None
+    return val if isinstance(val, dict) else None
+
+
 def _guard_key(fi: FunctionInfo, guards) -> str:
     """Line-free discriminator of a dispatch call: the branch conditions it sits under (minus the '#' test itself)."""
     parts = sorted({("" if p else "not ") + short(e, 48) for e, p in guards if _hash_fact(fi, e) is None})
@@ -499,6 +545,40 @@ def r1_dispatch(corpus: Corpus, rep: Report, tier: str):
                 rep.error(R1, f"{site}: {bad[1]}")
             else:
                 rep.violation(R1, k, site, f"an href that starts with '#' can reach `{short(call, 50)}`: the link is not marked id_link, ResolveAnchorIds never sees it and it resolves as something else")
+        # table dispatch: getattr(self, TABLE[scheme])(token) under `scheme in TABLE`
+        for call in [n for n in fi.local_nodes() if isinstance(n, ast.Call) and isinstance(n.func, ast.Call) and dotted(n.func.func) == "getattr"]:
+            ga = call.func
+            site = fi.module.site(call)
+            if not (len(ga.args) == 2 and isinstance(ga.args[0], ast.Name) and ga.args[0].id == "self"):
+                continue
+            sub = ga.args[1]
+            table = _class_table(corpus, fi, sub.value) if isinstance(sub, ast.Subscript) else None
+            if table is None or not isinstance(sub.slice, ast.Name):
+                if "render_link" in unparse(ga):
+                    rep.error(R1, f"{site}: dynamic dispatch `{short(call, 60)}` not understood")
+                continue
+            st = cfg.stmt_of(call)
+            guards = cfg.guards(st)
+            keyvar = sub.slice
+            member = any(p and isinstance(e, ast.Compare) and len(e.ops) == 1 and isinstance(e.ops[0], ast.In) and unparse(e.left) == unparse(keyvar) and unparse(e.comparators[0]) == unparse(sub.value) for e, p in guards)
+            hash_guard = any((not p) and _hash_fact(fi, e) is not None for e, p in guards)
+            scheme_ok = member and _scheme_regex_excludes_hash(fi, keyvar)
+            for key, meth in sorted(table.items()):
+                rep.saw_call(site)
+                k = f"{fi.fq}|table dispatch {key!r} -> self.{meth}(token)"
+                if not (isinstance(key, str) and isinstance(meth, str) and meth.startswith("render_link_")):
+                    continue
+                if meth == "render_link_anchor":
+                    rep.error(R1, f"{site}: render_link_anchor reached through a dispatch table: not modelled")
+                    continue
+                if key == "project" and meth == "render_link_project" and member:
+                    project_dispatch = True
+                if hash_guard:
+                    rep.ok(R1, k, site, "guarded by `not href.startswith('#')`")
+                elif scheme_ok:
+                    rep.ok(R1, k, site, f"selected by `{unparse(keyvar)}`: the scheme regex cannot match a leading '#'")
+                else:
+                    rep.violation(R1, k, site, f"an href that starts with '#' can reach `{short(call, 50)}` ({key!r} -> {meth})")
         if anchors == 0:
             rep.violation(R1, f"{fi.fq}|no '#' dispatch", fi.site(), "render_link has no `href.startswith('#')` -> render_link_anchor dispatch: local links are never resolved")
         k = f"{fi.fq}|scheme 'project' reaches render_link_project"
@@ -566,7 +646,244 @@ def r1_dispatch(corpus: Corpus, rep: Report, tier: str):
 
 
 # ---------------------------------------------------------------------------
+# helper inlining: a function that was split into private helpers is analysed as if it had not been split
+
+
+def _copy_ast(n):
+    """Structural copy that keeps positions but none of the corpus' back links."""
+    if isinstance(n, list):
+        return [_copy_ast(x) for x in n]
+    if not isinstance(n, ast.AST):
+        return n
+    new = n.__class__()
+    for fld in n._fields:
+        if hasattr(n, fld):
+            setattr(new, fld, _copy_ast(getattr(n, fld)))
+    for a in ("lineno", "col_offset", "end_lineno", "end_col_offset"):
+        if hasattr(n, a):
+            setattr(new, a, getattr(n, a))
+    return new
+
+
+class _Renamer(ast.NodeTransformer):
+    def __init__(self, subst: dict[str, ast.AST], rename: dict[str, str]):
+        self.subst, self.rename = subst, rename
+
+    def visit_Name(self, node: ast.Name):
+        if node.id in self.subst and isinstance(node.ctx, ast.Load):
+            new = _copy_ast(self.subst[node.id])
+            for a in ("lineno", "col_offset", "end_lineno", "end_col_offset"):
+                if hasattr(node, a):
+                    setattr(new, a, getattr(node, a))
+            return new
+        if node.id in self.rename:
+            node.id = self.rename[node.id]
+        return node
+
+
+def _stored_names(body: list[ast.stmt]) -> set[str]:
+    out: set[str] = set()
+    for st in body:
+        for n in [st] + list(walk_local(st)):
+            if isinstance(n, ast.Name) and isinstance(n.ctx, (ast.Store, ast.Del)):
+                out.add(n.id)
+            elif isinstance(n, ast.alias):
+                out.add((n.asname or n.name).split(".")[0])
+    return out
+
+
+def _strip_doc(body: list[ast.stmt]) -> list[ast.stmt]:
+    if body and isinstance(body[0], ast.Expr) and isinstance(body[0].value, ast.Constant) and isinstance(body[0].value.value, str):
+        return body[1:]
+    return body
+
+
+class _Inliner:
+    def __init__(self, corpus: Corpus, fi: FunctionInfo):
+        self.corpus, self.fi = corpus, fi
+        self.used = {n.id for n in ast.walk(fi.node) if isinstance(n, ast.Name)} | set(fi.params)
+        self.count = 0
+        self.inlined: list[str] = []
+
+    def callee(self, call: ast.Call, ctx: FunctionInfo) -> tuple[FunctionInfo, bool] | None:
+        f = call.func
+        h = None
+        if isinstance(f, ast.Attribute) and isinstance(f.value, ast.Name) and f.value.id == "self" and self.fi.cls is not None:
+            h = self.corpus.lookup_method(self.fi.cls, f.attr)
+            bound = True
+        elif isinstance(f, ast.Name):
+            h = ctx.module.functions.get(f.id)
+            bound = False
+        if h is None or h.is_lambda or h.fq == self.fi.fq or h.fq == ctx.fq or h.is_generator():
+            return None
+        decos = h.decorators()
+        if any(d not in ("staticmethod",) for d in decos):
+            return None
+        if any(isinstance(n, (ast.FunctionDef, ast.AsyncFunctionDef, ast.ClassDef, ast.Lambda, ast.Global, ast.Nonlocal)) for n in ast.walk(h.node) if n is not h.node):
+            return None
+        return h, (bound and "staticmethod" not in decos)
+
+    def bind(self, h: FunctionInfo, call: ast.Call, has_self: bool) -> dict[str, ast.AST] | None:
+        a = h.node.args
+        if a.vararg or a.kwarg or a.posonlyargs or any(isinstance(x, ast.Starred) for x in call.args) or any(k.arg is None for k in call.keywords):
+            return None
+        params = [x.arg for x in a.args]
+        defaults: dict[str, ast.AST] = {}
+        for prm, d in zip(params[len(params) - len(a.defaults):], a.defaults):
+            defaults[prm] = d
+        for prm, d in zip(a.kwonlyargs, a.kw_defaults):
+            if d is not None:
+                defaults[prm.arg] = d
+        out: dict[str, ast.AST] = {}
+        pos = params[1:] if has_self else params
+        if has_self:
+            out[params[0]] = ast.Name(id="self", ctx=ast.Load())
+        if len(call.args) > len(pos):
+            return None
+        for prm, arg in zip(pos, call.args):
+            out[prm] = arg
+        for k in call.keywords:
+            if k.arg in out or k.arg not in pos + [x.arg for x in a.kwonlyargs]:
+                return None
+            out[k.arg] = k.value
+        for prm in pos + [x.arg for x in a.kwonlyargs]:
+            if prm not in out:
+                if prm not in defaults:
+                    return None
+                out[prm] = defaults[prm]
+        return out
+
+    def try_inline(self, st: ast.stmt, ctx: FunctionInfo, depth: int) -> list[ast.stmt] | None:
+        if depth <= 0:
+            return None
+        target = None
+        if isinstance(st, ast.Expr) and isinstance(st.value, ast.Call):
+            call, mode = st.value, "stmt"
+        elif isinstance(st, ast.Assign) and len(st.targets) == 1 and isinstance(st.targets[0], ast.Name) and isinstance(st.value, ast.Call):
+            call, mode, target = st.value, "assign", st.targets[0].id
+        elif isinstance(st, ast.AnnAssign) and isinstance(st.target, ast.Name) and isinstance(st.value, ast.Call):
+            call, mode, target = st.value, "assign", st.target.id
+        else:
+            return None
+        r = self.callee(call, ctx)
+        if r is None:
+            return None
+        h, has_self = r
+        binding = self.bind(h, call, has_self)
+        if binding is None:
+            return None
+        body = _strip_doc(h.node.body)
+        rets = [n for b in body for n in [b] + list(walk_local(b)) if isinstance(n, ast.Return)]
+        ret_expr = None
+        if mode == "stmt":
+            if rets:
+                return None  # early returns: summarised by the caller-side helper model instead
+        else:
+            if len(rets) != 1 or rets[0] is not body[-1] or rets[0].value is None:
+                return None
+            ret_expr = rets[0].value
+            body = body[:-1]
+        stored = _stored_names(body)
+        aug_only = {n.target.id for b in body for n in [b] + list(walk_local(b)) if isinstance(n, ast.AugAssign) and isinstance(n.target, ast.Name)}
+        aug_only -= {
+            n.id
+            for b in body
+            for n in [b] + list(walk_local(b))
+            if isinstance(n, ast.Name) and isinstance(n.ctx, (ast.Store, ast.Del)) and not isinstance(getattr(n, "_parent", None), ast.AugAssign)
+        }
+        subst: dict[str, ast.AST] = {}
+        rename: dict[str, str] = {}
+        pre: list[ast.stmt] = []
+        self.count += 1
+        for prm, arg in binding.items():
+            simple = isinstance(arg, (ast.Name, ast.Constant)) or dotted(arg) is not None
+            if simple and prm not in stored:
+                subst[prm] = arg
+            elif isinstance(arg, ast.Name) and prm in aug_only:
+                rename[prm] = arg.id  # `p += x` on a parameter bound to a caller variable: in-place update of that variable's object
+            elif isinstance(arg, ast.Name) and has_self is not None and prm in stored:
+                self.count -= 1
+                return None  # the helper re-binds a parameter that aliases a caller variable: an alias would hide the variable's role
+            else:
+                new = prm if prm not in self.used else f"{prm}__{h.name.strip('_')}{self.count}"
+                rename[prm] = new
+                asg = ast.Assign(targets=[ast.Name(id=new, ctx=ast.Store())], value=_copy_ast(arg))
+                pre.append(asg)
+        if mode == "assign" and isinstance(ret_expr, ast.Name) and ret_expr.id in stored and ret_expr.id not in binding:
+            rename[ret_expr.id] = target  # the helper's result variable becomes the caller's variable
+        for nm in stored:
+            if nm in binding or nm in rename:
+                continue
+            if nm in self.used:
+                rename[nm] = f"{nm}__{h.name.strip('_')}{self.count}"
+        self.used |= {rename.get(n, n) for n in stored}
+        rn = _Renamer(subst, rename)
+        new_body = [rn.visit(_copy_ast(b)) for b in body]
+        new_body = self.block(new_body, h, depth - 1, copied=True)
+        out = pre + new_body
+        if mode == "assign":
+            rv = rn.visit(_copy_ast(ret_expr))
+            if not (isinstance(rv, ast.Name) and rv.id == target):
+                out.append(ast.Assign(targets=[ast.Name(id=target, ctx=ast.Store())], value=rv))
+        for n in out:
+            for x in ast.walk(n):
+                if not hasattr(x, "lineno") and isinstance(x, (ast.stmt, ast.expr)):
+                    x.lineno, x.col_offset, x.end_lineno, x.end_col_offset = st.lineno, st.col_offset, st.end_lineno, st.end_col_offset
+        self.inlined.append(h.qualname)
+        return out
+
+    def block(self, stmts: list[ast.stmt], ctx: FunctionInfo, depth: int, copied: bool = False) -> list[ast.stmt]:
+        out: list[ast.stmt] = []
+        for st in stmts:
+            r = self.try_inline(st, ctx, depth)
+            if r is not None:
+                out.extend(r)
+                continue
+            new = st if copied else _copy_ast(st)
+            for fld in ("body", "orelse", "finalbody"):
+                if isinstance(getattr(new, fld, None), list) and not isinstance(new, (ast.FunctionDef, ast.AsyncFunctionDef, ast.ClassDef)):
+                    setattr(new, fld, self.block(getattr(new, fld), ctx, depth, copied=True))
+            for hd in getattr(new, "handlers", []) or []:
+                hd.body = self.block(hd.body, ctx, depth, copied=True)
+            out.append(new)
+        return out
+
+
+def _inlined(corpus: Corpus, fi: FunctionInfo) -> FunctionInfo:
+    """``fi`` with calls to simple same-class / same-module helpers replaced by their bodies (two levels).
+    Positions of the copied statements are those of the helper's source, so sites stay meaningful."""
+
+    def build() -> FunctionInfo:
+        inl = _Inliner(corpus, fi)
+        body = inl.block(fi.node.body, fi, 2)
+        if not inl.inlined:
+            return fi
+        node = _copy_ast(fi.node)
+        node.body = body
+        mod = fi.module
+        for parent in ast.walk(node):
+            for child in ast.iter_child_nodes(parent):
+                child._parent = parent  # type: ignore[attr-defined]
+                child._mod = mod  # type: ignore[attr-defined]
+        node._parent = getattr(fi.node, "_parent", None)  # type: ignore[attr-defined]
+        node._mod = mod  # type: ignore[attr-defined]
+        new = FunctionInfo(mod, fi.qualname, node, fi.cls, fi.parent_func)
+        node._fi = new  # type: ignore[attr-defined]
+        new.__dict__["_inlined_helpers"] = sorted(set(inl.inlined))
+        return new
+
+    return corpus.cache(("c09-inlined", fi.fq), build)
+
+
+# ---------------------------------------------------------------------------
 # the resolver model shared by R2..R5
+
+
+# docutils.nodes.Element methods that copy attributes *from* their argument and leave it untouched (read from the docutils source)
+DOCUTILS_READS_ARGUMENT = {
+    "update_basic_atts", "update_all_atts", "update_all_atts_concatenating", "update_all_atts_coercion", "update_all_atts_convert",
+    "copy_attr_convert", "copy_attr_coerce", "copy_attr_concatenate", "copy_attr_consistent", "index",
+}
 
 
 class Resolver:
@@ -574,7 +891,7 @@ class Resolver:
 
     def __init__(self, corpus: Corpus):
         self.corpus = corpus
-        self.fi = fi = corpus.func(f"{TR}:ResolveAnchorIds.apply")
+        self.fi = fi = _inlined(corpus, corpus.func(f"{TR}:ResolveAnchorIds.apply"))
         self.m = fi.module
         self.cfg = get_cfg(fi)
         # the loop over reference nodes
@@ -679,6 +996,8 @@ class Resolver:
                 passed = [a for a in list(n.args) + [k.value for k in n.keywords] if isinstance(a, ast.Name) and a.id == self.var]
                 if passed and dotted(n.func) not in ("isinstance", "len", "bool", "id", "repr", "str"):
                     if isinstance(n.func, ast.Attribute) and isinstance(n.func.value, ast.Name) and n.func.value.id != "self":
+                        if n.func.attr in DOCUTILS_READS_ARGUMENT and n.func.value.id != self.var:
+                            continue  # docutils Element method that only reads its argument (copies attributes from it)
                         raise Unsupported(f"the reference node is passed to `{short(n, 50)}`, which is not followed")
                     self._follow_helper(n)
         # any other reporter-style emission inside the loop is outside the model
@@ -1033,6 +1352,20 @@ def r2_attribute_agreement(corpus: Corpus, rep: Report, tier: str):
 # R3 loop-body paths
 
 
+def _returns_astext(corpus: Corpus, fi: FunctionInfo, e: ast.AST) -> bool:
+    """``e`` is a call of a same-class method / same-module function one of whose returns is a ``*astext(...)`` call."""
+    if not isinstance(e, ast.Call):
+        return False
+    h = None
+    if _self_call(e) and fi.cls is not None:
+        h = corpus.lookup_method(fi.cls, _self_call(e))
+    elif isinstance(e.func, ast.Name):
+        h = fi.module.functions.get(e.func.id)
+    if h is None or h.is_lambda:
+        return False
+    return any(isinstance(r, ast.Return) and r.value is not None and any(isinstance(c, ast.Call) and (dotted(c.func) or "").endswith("astext") for c in ast.walk(r.value)) for r in h.local_nodes())
+
+
 def _registry_writer_positions(corpus: Corpus, rs: Resolver) -> dict[str, dict[str, int]]:
     """{'explicit': {'id': i, 'title': j}, 'slugs': {...}} from the registries' writers."""
     out: dict[str, dict[str, int]] = {}
@@ -1044,7 +1377,7 @@ def _registry_writer_positions(corpus: Corpus, rs: Resolver) -> dict[str, dict[s
     for i, e in enumerate(v.elts):
         if _direct(rs.fi, e, lambda s: isinstance(s, ast.Attribute) and s.attr == "nameids"):
             pos.setdefault("id", i)
-        elif _direct(rs.fi, e, lambda s: isinstance(s, ast.Call) and (dotted(s.func) or "").endswith("astext")):
+        elif _direct(rs.fi, e, lambda s: isinstance(s, ast.Call) and (dotted(s.func) or "").endswith("astext")) or _direct(rs.fi, e, lambda s: _returns_astext(corpus, rs.fi, s)):
             pos.setdefault("title", i)
     if set(pos) != {"id", "title"}:
         raise Unsupported(f"explicit registry tuple `{short(v, 50)}`: id/title positions not recognised ({pos})")
@@ -1569,6 +1902,22 @@ EXPLICIT_WRITERS = {
 }
 
 
+def _name_table_guard(f: FunctionInfo, write: ast.AST, reg: ast.Call | None) -> str | None:
+    """Text of a branch condition on document.nameids / document.ids (but not nametypes) under which the explicit
+    registration happens, i.e. a guard that cannot tell explicit from implicit names; None if there is none."""
+    cfg = get_cfg(f)
+    stmts = [cfg.stmt_of(write)] + ([cfg.stmt_of(reg)] if reg is not None else [])
+    for st in stmts:
+        guards = cfg.guards(st)
+        if any(isinstance(x, ast.Attribute) and x.attr == "nametypes" for e, _ in guards for c in _closure(f, e) for x in ast.walk(c)):
+            continue
+        for e, p in guards:
+            for c in _closure(f, e):
+                if any(isinstance(x, ast.Attribute) and x.attr in ("nameids", "ids") and isinstance(x.value, ast.Attribute) and x.value.attr == "document" for x in ast.walk(c)):
+                    return ("" if p else "not ") + short(e, 60)
+    return None
+
+
 @rule(R5)
 def r5_explicit_only(corpus: Corpus, rep: Report, tier: str):
     rep.rule(R5, "the explicit registry holds exactly the explicit names: reader filters on the nametypes flag; target/attribute-id/name-option writers register explicit, the heading title registers implicit")
@@ -1665,7 +2014,16 @@ def r5_explicit_only(corpus: Corpus, rep: Report, tier: str):
         site = f.module.site(call)
         if f.fq in EXPLICIT_WRITERS:
             seen.add(f.fq)
-            if kind == "explicit":
+            blind = _name_table_guard(f, call, reg)
+            if kind == "explicit" and blind is not None:
+                rep.violation(
+                    R5,
+                    k,
+                    site,
+                    f"{EXPLICIT_WRITERS[f.fq]}: the registration only happens when `{blind}` - document.nameids/ids also hold the *implicit* names of headings, and the test does not "
+                    "consult document.nametypes: an explicit target whose name equals the title of an earlier heading is dropped instead of taking priority (docutils itself lets an explicit name override an implicit one)",
+                )
+            elif kind == "explicit":
                 rep.ok(R5, k, site, EXPLICIT_WRITERS[f.fq])
             else:
                 rep.violation(R5, k, site, f"{EXPLICIT_WRITERS[f.fq]}: the name is appended but registered as {kind or 'nothing'}: `#name` links to it are reported missing (or fall to a heading slug)")
@@ -1949,8 +2307,16 @@ def r7_slug_key_fresh(corpus: Corpus, rep: Report, tier: str):
         is_param_reg = lambda e: isinstance(e, ast.Name) and e.id == sp  # noqa: E731
         uses = [n for n in g.local_nodes() if isinstance(n, ast.Name) and n.id == sp and isinstance(n.ctx, ast.Load)]
         rets = [r for r in g.local_nodes() if isinstance(r, ast.Return)]
-        if not rets or any(not isinstance(r.value, ast.Name) for r in rets):
-            raise Unsupported(f"{g.qualname}: a return value is not a local name")
+        if not rets or any(r.value is None for r in rets):
+            raise Unsupported(f"{g.qualname}: a return without value")
+
+        def leaves(e: ast.expr) -> list[ast.expr]:
+            if isinstance(e, ast.IfExp):
+                return leaves(e.body) + leaves(e.orelse)
+            if isinstance(e, ast.Call) and dotted(e.func) in ("str", "cast", "t.cast", "typing.cast") and e.args:
+                return leaves(e.args[-1])
+            return [e]
+
         if not uses:
             rep.violation(R7, f"{g.fq}|result is tested against the registry", g.site(), f"{g.qualname} never reads its registry parameter `{sp}`: duplicate headings get the same anchor and overwrite each other in document.myst_slugs")
             continue
@@ -1958,22 +2324,32 @@ def r7_slug_key_fresh(corpus: Corpus, rep: Report, tier: str):
         if not tests:
             raise Unsupported(f"{g.qualname}: no `candidate in {sp}` test on the returned name (uniqueness established in an unknown idiom)")
         for r in rets:
-            x = r.value.id
-            kk = f"{g.fq}|returned `{x}` was tested absent from `{sp}` after its last assignment"
-            gdefs = [s for _, _, s in _bindings(g, x)]
-            starts = [gcfg.stmt_of(d) for d in gdefs] + (["ENTRY"] if x in g.params else [])
-            stale = [d for d in starts if gcfg.paths_avoiding(d, r, lambda n: fresh_edge(n, x, is_param_reg))]
-            if not stale:
-                rep.ok(R7, kk, g.module.site(r), f"{len(starts)} definition(s), each followed by `{x} in {sp}` == False before the return")
-            else:
-                d = stale[0]
-                rep.violation(
-                    R7,
-                    kk,
-                    g.module.site(d) if isinstance(d, ast.AST) else g.site(),
-                    f"`{short(d, 50) if isinstance(d, ast.AST) else 'the parameter'}` reaches `{short(r, 30)}` on a path that does not re-test `{x} in {sp}`: the returned anchor can already be taken "
-                    f"(e.g. three headings 'Alpha', or 'Beta-1' followed by two 'Beta'), the later heading overwrites the earlier one in document.myst_slugs and `[](#slug-1)` links point at a different heading",
-                )
+            for leaf in leaves(r.value):
+                if not isinstance(leaf, ast.Name):
+                    rep.violation(
+                        R7,
+                        f"{g.fq}|returned `{short(leaf, 30)}` was tested absent from `{sp}` after its last assignment",
+                        g.module.site(r),
+                        f"`{short(r, 60)}` returns the freshly computed candidate `{short(leaf, 30)}` without testing it against `{sp}`: it can already be the anchor of another heading "
+                        "(a heading literally titled 'Intro-1' next to two headings 'Intro'), which is then overwritten in document.myst_slugs - `[](#intro-1)` points at a different heading",
+                    )
+                    continue
+                x = leaf.id
+                kk = f"{g.fq}|returned `{x}` was tested absent from `{sp}` after its last assignment"
+                gdefs = [s for _, _, s in _bindings(g, x)]
+                starts = [gcfg.stmt_of(d) for d in gdefs] + (["ENTRY"] if x in g.params else [])
+                stale = [d for d in starts if gcfg.paths_avoiding(d, r, lambda n: fresh_edge(n, x, is_param_reg))]
+                if not stale:
+                    rep.ok(R7, kk, g.module.site(r), f"{len(starts)} definition(s), each followed by `{x} in {sp}` == False before the return")
+                else:
+                    d = stale[0]
+                    rep.violation(
+                        R7,
+                        kk,
+                        g.module.site(d) if isinstance(d, ast.AST) else g.site(),
+                        f"`{short(d, 50) if isinstance(d, ast.AST) else 'the parameter'}` reaches `{short(r, 30)}` on a path that does not re-test `{x} in {sp}`: the returned anchor can already be taken "
+                        f"(e.g. three headings 'Alpha', or 'Beta-1' followed by two 'Beta'), the later heading overwrites the earlier one in document.myst_slugs and `[](#slug-1)` links point at a different heading",
+                    )
     rep.expect_min(R7, 1, "the slug registry writer")
 
 
@@ -2057,7 +2433,61 @@ def r8_slug_registry_monotone(corpus: Corpus, rep: Report, tier: str):
     rep.expect_min(R8, 1, "the per-parse reset of the slug registry")
 
 
-RULES = [r1_dispatch, r2_attribute_agreement, r3_loop_paths, r4_key_normalisation, r5_explicit_only, r6_title_extraction, r7_slug_key_fresh, r8_slug_registry_monotone]
+# ---------------------------------------------------------------------------
+# R9 the title text: no return of clean_astext bypasses one of its sanitising steps
+
+
+@rule("C09.R9")
+def r9_title_text_sanitised(corpus: Corpus, rep: Report, tier: str):
+    R9 = "C09.R9"
+    rep.rule(R9, "clean_astext (the one source of a target's title text, for the slug registry and the explicit registry alike) applies each of its sanitising steps (image alt, raw nodes) before every return, on a copy")
+    base = corpus.mod(BASE)
+    f = _inlined(corpus, base.func("clean_astext"))
+    rep.saw_function(f.fq)
+    cfg = get_cfg(f)
+    steps = []
+    for n in f.local_nodes():
+        if isinstance(n, ast.For):
+            cls = {c for x in ast.walk(n.iter) for c in (_node_classes(f, x) or set()) if isinstance(x, (ast.Attribute, ast.Name))}
+            if cls and any(isinstance(c, ast.Call) and (dotted(c.func) or "").rsplit(".", 1)[-1] in ("findall", "traverse") for c in ast.walk(n.iter)):
+                steps.append((n, cls))
+    rets = [r for r in f.local_nodes() if isinstance(r, ast.Return)]
+    if not steps or not rets:
+        raise Unsupported(f"clean_astext: {len(steps)} sanitising loop(s), {len(rets)} return(s): shape not recognised")
+    have = {c for _, cls in steps for c in cls}
+    for need, why in (("image", "the alt text of an image is not title text"), ("raw", "raw (HTML/LaTeX) markup is not title text")):
+        k = f"{f.fq}|has a nodes.{need} step"
+        if need in have:
+            rep.ok(R9, k, f.site())
+        else:
+            rep.violation(R9, k, f.site(), f"clean_astext has no step for nodes.{need} ({why}; sphinx.util.nodes.clean_astext, which this copies, has one)")
+    for r in rets:
+        guards = cfg.guards(r)
+        examined = {c for e, _ in guards for x in _closure(f, e) for y in ast.walk(x) for c in (_node_classes(f, y) or set()) if isinstance(y, (ast.Attribute, ast.Name))}
+        for loop, cls in steps:
+            k = f"{f.fq}|`{short(r, 40)}` comes after the {'/'.join(sorted(cls))} step"
+            if cfg.dominates(loop, r):
+                rep.ok(R9, k, f.module.site(r))
+            elif cls <= examined:
+                rep.ok(R9, k, f.module.site(r), f"early exit under a condition that examines nodes.{'/'.join(sorted(cls))}")
+            else:
+                rep.violation(
+                    R9,
+                    k,
+                    f.module.site(r),
+                    f"`{short(r, 40)}` can be reached without running `{short(loop, 50)}` and its condition does not look at nodes.{'/'.join(sorted(cls))}: "
+                    f"{'raw (HTML) markup inside a heading leaks into' if 'raw' in cls else 'image alt text leaks into'} the title text that fills empty '#' links",
+                )
+    k = f"{f.fq}|sanitising works on a copy"
+    copies = [n for n in f.local_nodes() if isinstance(n, ast.Call) and isinstance(n.func, ast.Attribute) and n.func.attr in ("deepcopy",) or (isinstance(n, ast.Call) and (dotted(n.func) or "").endswith("deepcopy"))]
+    if copies and all(cfg.dominates(cfg.stmt_of(copies[0]), loop) for loop, _ in steps):
+        rep.ok(R9, k, f.module.site(copies[0]))
+    else:
+        rep.violation(R9, k, f.site(), "the sanitising loops run on the document's own nodes, not on a deep copy: resolving a link removes raw nodes / alt texts from the target heading")
+    rep.expect_min(R9, 5, "two required steps, each before the return, + the copy")
+
+
+RULES = [r1_dispatch, r2_attribute_agreement, r3_loop_paths, r4_key_normalisation, r5_explicit_only, r6_title_extraction, r7_slug_key_fresh, r8_slug_registry_monotone, r9_title_text_sanitised]
 
 
 # ---------------------------------------------------------------------------
@@ -2335,4 +2765,33 @@ def mutants(corpus: Corpus):
     hst = find_node(ght, lambda n: isinstance(n, ast.Assign) and isinstance(n.targets[0], ast.Subscript) and isinstance(n.targets[0].value, ast.Attribute) and n.targets[0].value.attr == "_heading_slugs")
     if hst is not None:
         add("c09-slug-registry-rebound-to-single-entry", "C09.R8", base, splice(base.src, hst, "self._heading_slugs = {" + _seg(base, hst.targets[0].slice) + ": " + _seg(base, hst.value) + "}"), "_heading_slugs")
+    # ---- R5: explicit registration made conditional on a table that also holds implicit names ---------------
+    for mid, g, doc in (
+        ("attr-id", ca, "self.document"),
+        ("myst-target", base.func("DocutilsRenderer.render_myst_target"), "self.document"),
+        ("name-option", corpus.func("mocking:MockIncludeDirective.add_name"), "self.renderer.document"),
+    ):
+        w = find_node(g, lambda n: isinstance(n, ast.Expr) and isinstance(n.value, ast.Call) and isinstance(n.value.func, ast.Attribute) and n.value.func.attr == "append" and "names" in unparse(n.value.func.value))
+        if w is not None and isinstance(w.value.args[0], ast.Name):
+            gm = g.module
+            nm = w.value.args[0].id
+            add(f"c09-explicit-{mid}-skipped-if-name-taken", R5, gm, splice(gm.src, w, f"if {doc}.nameids.get({nm}) is not None:\n{_indent(gm, w)}    return\n{_indent(gm, w)}{_seg(gm, w)}"), "registration only happens")
+    # ---- R7: candidate computed in the return expression ---------------------------------------------------------------
+    if wl is not None and ret is not None:
+        add("c09-uniquifier-count-based-suffix", "C09.R7", base, splice(base.src, wl, f"if {_seg(base, wl.test)}:\n{_indent(base, wl)}    return f\"{{slug}}-{{sum(1 for s in slugs if s.startswith(slug))}}\""), "freshly computed")
+    # ---- R9: a return of clean_astext that bypasses a sanitising step ------------------------------------------------------
+    cat = base.func("clean_astext")
+    loops = [n for n in cat.local_nodes() if isinstance(n, ast.For)]
+    first = _strip_doc(cat.node.body)[0] if _strip_doc(cat.node.body) else None
+    if first is not None and len(loops) >= 2:
+        ind = _indent(base, first)
+        add("c09-title-text-early-exit-without-image", "C09.R9", base, splice(base.src, first, f"if next(iter(findall(node)(nodes.image)), None) is None:\n{ind}    return node.astext()\n{ind}{_seg(base, first)}"), "raw step")
+        add("c09-title-text-early-exit-without-raw", "C09.R9", base, splice(base.src, first, f"if not any(True for _ in findall(node)(nodes.raw)):\n{ind}    return node.astext()\n{ind}{_seg(base, first)}"), "image step")
+        rawloop = [n for n in loops if "raw" in unparse(n.iter)]
+        if rawloop:
+            c = find_node(cat, lambda n: isinstance(n, ast.Attribute) and n.attr == "raw" and any(a is rawloop[0] for a in _ancestors(n)))
+            if c is not None:
+                add("c09-title-text-raw-step-lost", "C09.R9", base, splice(base.src, c, "nodes.comment"), "nodes.raw step")
+    else:
+        out.append(("c09-title-text-early-exit-without-image", "clean_astext shape not recognised"))
     return out
